@@ -780,12 +780,12 @@ impl<V: View> View for Next<V> {
                             if let Var::VarF(interval) = &ctx.vars()[var_id] {
                                 Val::ValF(interval.prev(f))
                             } else {
-                                // Fallback: return original value
-                                min
+                                // No step size: shift an integer view by one, leave a float as is
+                                if self.x.result_type(ctx) == ViewType::Integer { Val::ValF(f - 1.0) } else { min }
                             }
                         } else {
-                            // Fallback: return original value
-                            min
+                            // No step size: shift an integer view by one, leave a float as is
+                            if self.x.result_type(ctx) == ViewType::Integer { Val::ValF(f - 1.0) } else { min }
                         }
                     }
                     Val::ValI(i) => Val::ValI(i - 1), // integer case works fine
@@ -821,12 +821,12 @@ impl<V: View> View for Next<V> {
                             if let Var::VarF(interval) = &ctx.vars()[var_id] {
                                 Val::ValF(interval.prev(f))
                             } else {
-                                // Fallback: return original value
-                                max
+                                // No step size: shift an integer view by one, leave a float as is
+                                if self.x.result_type(ctx) == ViewType::Integer { Val::ValF(f - 1.0) } else { max }
                             }
                         } else {
-                            // Fallback: return original value
-                            max
+                            // No step size: shift an integer view by one, leave a float as is
+                            if self.x.result_type(ctx) == ViewType::Integer { Val::ValF(f - 1.0) } else { max }
                         }
                     }
                     Val::ValI(i) => Val::ValI(i - 1), // integer case works fine
@@ -891,12 +891,12 @@ impl<V: View> View for Prev<V> {
                     if let Var::VarF(interval) = &ctx.vars()[var_id] {
                         Val::ValF(interval.next(f))
                     } else {
-                        // Fallback: return original value
-                        min
+                        // No step size: shift an integer view by one, leave a float as is
+                        if self.x.result_type(ctx) == ViewType::Integer { Val::ValF(f + 1.0) } else { min }
                     }
                 } else {
-                    // Fallback: return original value
-                    min
+                    // No step size: shift an integer view by one, leave a float as is
+                    if self.x.result_type(ctx) == ViewType::Integer { Val::ValF(f + 1.0) } else { min }
                 }
             }
             Val::ValI(i) => Val::ValI(i + 1), // integer case works fine
@@ -912,12 +912,12 @@ impl<V: View> View for Prev<V> {
                     if let Var::VarF(interval) = &ctx.vars()[var_id] {
                         Val::ValF(interval.next(f))
                     } else {
-                        // Fallback: return original value
-                        max
+                        // No step size: shift an integer view by one, leave a float as is
+                        if self.x.result_type(ctx) == ViewType::Integer { Val::ValF(f + 1.0) } else { max }
                     }
                 } else {
-                    // Fallback: return original value
-                    max
+                    // No step size: shift an integer view by one, leave a float as is
+                    if self.x.result_type(ctx) == ViewType::Integer { Val::ValF(f + 1.0) } else { max }
                 }
             }
             Val::ValI(i) => Val::ValI(i + 1), // integer case works fine
